@@ -32,6 +32,18 @@ class CallableObj:
         return RuntimeError("x")
 
 
+class ClassProxy:
+    """A callable that is NOT a class but looks like an exception class to duck-typed checks: issubclass() accepts any
+    object with a __bases__ tuple (lazy class proxies, mocks)."""
+
+    __bases__ = (ValueError,)
+    __name__ = "ValueError"
+
+    def __call__(self, *a: Any, **k: Any) -> Any:
+        CALLS.append("class_proxy")
+        return ValueError("made by a proxy")
+
+
 class NotExc:
     def __new__(cls, *a: Any, **k: Any) -> Any:
         CALLS.append("NotExc.__new__")
@@ -85,7 +97,7 @@ def install() -> types.ModuleType:
     sub = types.ModuleType(MOD + ".sub")
     for name, obj in dict(
         func=_rec("func"), lam=(lambda *a, **k: CALLS.append("lambda")), callable_instance=CallableObj(),
-        partial=functools.partial(_rec("partial"), 1), NotExc=NotExc, LooksLikeExc=LooksLikeExc, GoodExc=GoodExc, GoodBase=GoodBase,
+        partial=functools.partial(_rec("partial"), 1), class_proxy=ClassProxy(), NotExc=NotExc, LooksLikeExc=LooksLikeExc, GoodExc=GoodExc, GoodBase=GoodBase,
         CtorFails=CtorFails, exc_instance=ValueError("i am an instance"), number=5, none=None, builtin_eval=eval, builtin_print=print,
         type_type=type, object_type=object, exc_type_alias=KeyError, sub=sub,
     ).items():
